@@ -98,13 +98,13 @@ class Result:
 # ------------------------------------------------------------------------------------------------
 def run_mc(res: Result, name: str, ops: list[str], maxcalls: int, limits: list[int], maxm: list[int],
            invariants: list[str], emit_from: int | None, netmode: str = "all2", timeout: float = 3000.0,
-           failats: list[int] = (0,)) -> list[dict]:
+           failats: list[int] = (0,), properties: list[str] = ()) -> list[dict]:
     wd = os.path.join(WORK, res.pid, "mc_" + name)
     shutil.rmtree(wd, ignore_errors=True)
     os.makedirs(wd)
     cfg = os.path.join(wd, "mc.cfg")
     invs = list(invariants) + (["Emit"] if emit_from is not None else [])
-    tlc.write_cfg(cfg, invariants=invs, view="view",
+    tlc.write_cfg(cfg, invariants=invs, view="view", properties=list(properties),
                   constants={"MaxCalls": maxcalls, "NetMode": f'"{netmode}"', "Limits": tlc.tla_set(limits),
                              "MaxM": tlc.tla_set(maxm), "Ops": tlc.tla_set(ops), "FailAts": tlc.tla_set(list(failats)),
                              "EmitFrom": emit_from if emit_from is not None else 99})
@@ -114,7 +114,7 @@ def run_mc(res: Result, name: str, ops: list[str], maxcalls: int, limits: list[i
     res.cov["transitions"] += r["generated"]
     res.cov["mc_runs"].append({"name": name, "ops": ops, "max_calls": maxcalls, "limits": limits, "maxm": maxm,
                                "nets": netmode, "distinct_states": r["distinct"], "transitions": r["generated"],
-                               "invariants": invariants, "ok": r["ok"], "wall_s": round(r["wall_s"], 1)})
+                               "invariants": list(invariants) + list(properties), "ok": r["ok"], "wall_s": round(r["wall_s"], 1)})
     if not r["ok"]:
         path = os.path.join(wd, "tlc.log")
         for inv in r["violated"]:
